@@ -67,6 +67,11 @@ pub struct WireTalk {
     /// the requesters are behind NAT: their records advertise another socket than they send from
     #[serde(default)]
     pub nat: bool,
+    /// between the delivery of the requests and their answers: 1 = the first requester (same node id,
+    /// its own key) completes a handshake with V from a SECOND endpoint; 2 = the first requester sends
+    /// a message under its session that does not decode (another protocol revision); 0 = nothing
+    #[serde(default)]
+    pub interlude: u8,
 }
 
 async fn run_wire(wt: &WireTalk, rep: &mut CaseReport) -> Option<(String, String)> {
@@ -92,6 +97,7 @@ async fn run_wire(wt: &WireTalk, rep: &mut CaseReport) -> Option<(String, String
         foreign_enr_answer: vec![],
         v_session_timeout_ms: None,
         v_session_capacity: None,
+        v_dual_listen: false,
     };
     let mut w = World::new(cfg).await;
     if wt.nat {
@@ -133,6 +139,33 @@ async fn run_wire(wt: &WireTalk, rep: &mut CaseReport) -> Option<(String, String
             l.ban_ips.insert(addr.socket_addr.ip(), None);
         }
         rep.class("wire-companion/requesters-banned-before-the-answer");
+    }
+    match wt.interlude % 3 {
+        1 => {
+            use crate::engines::wire::{AttachedRecord, EphKey, ForgedBody, Signer, XSel};
+            act(&mut w, &Op::Probe { x: XSel::Peer(0), z: 0 });
+            w.settle().await;
+            w.step += 1;
+            let ok = act(&mut w, &Op::ForgedHandshake { x: XSel::Peer(0), z: 0, signer: Signer::Genuine, eph: EphKey::Valid, rec: AttachedRecord::Genuine, body: ForgedBody::Ping, spoof: false });
+            w.settle().await;
+            w.step += 1;
+            w.pool.clear();
+            let second = crate::engines::wire::attacker_addr(0);
+            if ok && w.snaps[0].sessions.iter().any(|s| s.addr.socket_addr == second && s.addr.node_id.raw() == w.nodes[1].id) {
+                rep.class("wire-companion/requester-established-a-session-from-a-second-endpoint-in-between");
+                rep.nontrivial = true;
+            }
+        }
+        2 => {
+            if act(&mut w, &Op::UndecodableMessage { peer: 0, to: 0, variant: wt.n_req }) {
+                rep.class("wire-companion/undecodable-message-of-the-requester-in-between");
+                rep.nontrivial = true;
+            }
+            w.settle().await;
+            w.step += 1;
+            w.pool.clear();
+        }
+        _ => {}
     }
     for (addr, req) in held {
         w.respond(0, addr, req, 1);
@@ -455,14 +488,14 @@ impl Property for C20 {
         let step_cases = (prop_oneof![5 => Just(true), 1 => Just(false)], proptest::collection::vec(step, 1..20), any::<bool>(), 0u8..16, 0u8..16, prop_oneof![3 => Just(false), 1 => Just(true)])
             .prop_map(|(register_events, steps, respond_after_shutdown, known, moved, dual)| Case { register_events, steps, respond_after_shutdown, known, moved, dual, wire: None });
         let svc = step_cases;
-        let companion = (prop_oneof![2 => 1u8..31, 3 => 31u8..=90], any::<bool>(), any::<bool>(), prop_oneof![2 => Just(false), 1 => Just(true)], prop_oneof![2 => Just(false), 1 => Just(true)]).prop_map(|(n_req, two_peers, newest_first, ban_before_answer, nat)| Case {
+        let companion = (prop_oneof![2 => 1u8..31, 3 => 31u8..=90], any::<bool>(), any::<bool>(), prop_oneof![2 => Just(false), 1 => Just(true)], prop_oneof![2 => Just(false), 1 => Just(true)], prop_oneof![2 => Just(0u8), 1 => Just(1u8), 1 => Just(2u8)]).prop_map(|(n_req, two_peers, newest_first, ban_before_answer, nat, interlude)| Case {
             register_events: true,
             steps: vec![],
             respond_after_shutdown: false,
             known: 0,
             moved: 0,
             dual: false,
-            wire: Some(WireTalk { n_req, two_peers, newest_first, ban_before_answer, nat }),
+            wire: Some(WireTalk { n_req, two_peers, newest_first, ban_before_answer, nat, interlude }),
         });
         prop_oneof![150 => svc, 1 => companion].boxed()
     }
